@@ -854,7 +854,7 @@ def _assign_frame_cases(tier, group):
         rows_for = lambda m: (3,) if m >= 3 else (2, 4) if m == 2 else (1, 3)
     else:
         mixes = MIXES['thorough']
-        rows_for = (lambda m: (1, 2, 3, 4) if m < 4 else (2, 4)) if group == 'unlabelled' else (lambda m: (1, 2, 3, 4) if m < 3 else (2, 4) if m == 3 else (3,))
+        rows_for = (lambda m: (1, 3, 4) if m < 4 else (2, 4)) if group == 'unlabelled' else (lambda m: (1, 3, 4) if m < 3 else (2, 4) if m == 3 else (3,))
     out = []
     for kinds in mixes:
         for rows in rows_for(len(kinds)):
@@ -1033,7 +1033,7 @@ def _dm_cases(tier):
         rows_for = lambda m: (3,) if m >= 3 else (2, 4) if m == 2 else (0, 1, 3)
     else:
         mixes = MIXES['thorough']
-        rows_for = lambda m: (0, 1, 2, 3, 4) if m < 4 else (1, 3, 4)
+        rows_for = lambda m: (0, 1, 3, 4) if m < 4 else (1, 3, 4)
     out = []
     for kinds in mixes:
         for rows in rows_for(len(kinds)):
